@@ -45,6 +45,7 @@ type SemOpts struct {
 	Strict     bool // C15 clauses on printed numbers
 	IgnoreOut  bool // only the outcome class matters (C07)
 	SkipNatlog bool
+	IgnoreLines bool // C18: layout changes move line numbers; only the kind of the first diagnostic is compared
 	BothStdinEndings bool // C19: run every case with and without a newline after the last input line
 	RunUnspec  bool // also run programs the specification stops judging (status unspec): only crash-freedom is checked
 	SpliceMeta bool // FamPrint: records 1..3 splice the value of record 0 into strings; they must show the text print showed
@@ -125,7 +126,7 @@ func compareSem(rec *SemRec, r *Result, o *SemOpts) (string, string) {
 		if got != "unclassified" && kindClass(got) != kindClass(want.Kind) {
 			return "diag-kind:" + kindClass(want.Kind) + "->" + kindClass(got), fmt.Sprintf("expected %s at line %d, got %q [line %d]", want.Kind, want.Ln, rd[0].Msg, rd[0].Line)
 		}
-		if rd[0].Line != want.Ln {
+		if rd[0].Line != want.Ln && !o.IgnoreLines {
 			return "diag-line:" + kindClass(want.Kind), fmt.Sprintf("expected line %d, got %q [line %d]", want.Ln, rd[0].Msg, rd[0].Line)
 		}
 		// nothing observable after the first diagnostic (C06)
